@@ -181,9 +181,9 @@ def run(ctx: Ctx) -> None:
     # ------------------------------------------------------------ C
     ukeys = W.unitary_keys(excluded)
     tasks = [('tr1', lib, 3, k, excluded, seed)
-             for lib in libs for k in ukeys]
-    tasks += [('tr1', lib, reg[k]['nq'], k, (), seed) for lib in libs
-              for k in sorted(reg) if reg[k]['nq'] > 3]
+             for k in ukeys for lib in libs]
+    tasks += [('tr1', lib, reg[k]['nq'], k, (), seed)
+              for k in sorted(reg) if reg[k]['nq'] > 3 for lib in libs]
     tasks += [('trq', name, seed) for name in L.qiskit_std_gates()]
     _stage(ctx, 'translators-single-ops', tasks, total,
            budget=None if quick else 120)
@@ -192,7 +192,7 @@ def run(ctx: Ctx) -> None:
     k2 = [k for k in ukeys if (tag == 'full' or k in W.REDUCED_RT)]
     P = L.placed_ops(n2, k2)
     tasks = [('tr2', lib, n2, i, tag, excluded, seed)
-             for lib in libs for i in range(len(P))]
+             for i in range(len(P)) for lib in libs]
     _stage(ctx, 'translators-two-ops', tasks, total,
            budget=15 if quick else 240)
 
